@@ -50,9 +50,24 @@ def _key(spec, extra=()):
 
 
 def _labels(spec):
-    return (f"dim{spec['dim']}", "origin-user" if spec["origin"] is not None else "origin-default",
-            "thin" if 1 in spec["shape"] else "thick",
-            f"payload-{spec['payload']}{'-series' if spec['series'] else ''}")
+    h = [d / n for d, n in zip(spec["dimensions"], spec["shape"])]
+    out = [f"dim{spec['dim']}", "origin-user" if spec["origin"] is not None else "origin-default",
+           "thin" if 1 in spec["shape"] else "thick",
+           f"payload-{spec['payload']}{'-series' if spec['series'] else ''}"]
+    if spec["origin"] is not None and any(
+            abs(o) > 1e3 * h[AXES[spec["dim"]][c][0]] for c, o in enumerate(spec["origin"])):
+        out.append("origin-far")
+    if spec["dim"] > 1 and len(set(h)) > 1:
+        out.append("voxel-anisotropic")
+    out.append("voxel-small" if min(h) < 1e-2 else "voxel-large" if max(h) > 1e2 else "voxel-order-one")
+    return tuple(out)
+
+
+def _unchanged(before, after, what, t):
+    """Conversions read their arguments and the image metadata; they do not write them."""
+    b, a = np.asarray(before), np.asarray(after)
+    if b.shape != a.shape or b.dtype != a.dtype or not np.array_equal(b, a):
+        raise Violation("argument-mutated", f"{what} was modified by the call", t)
 
 
 def _nontrivial(spec):
@@ -89,7 +104,42 @@ def check_origin_corner(case):
     vs = np.asarray(img.voxel_size, dtype=float)
     if not np.allclose(vs, ref.h, rtol=4 * EPS, atol=0):
         raise Violation("voxel_size", f"{vs.tolist()} vs {ref.h}", t)
-    return Outcome(_nontrivial(spec), _key(spec), _labels(spec))
+    # the physical extent of the image is the box spanned by the origin and the corner displaced by
+    # the dimensions: the coordinate system's bounding box (domain / min_coordinate / max_coordinate,
+    # read e.g. by add_grid and the shape corrections) and Image.domain (the plotting extent
+    # (left, right, bottom, top) = (x of voxel 0, x of the opposite corner, y of the opposite corner,
+    # y of voxel 0); 1-D: (x of voxel 0, x of the opposite corner)) are that box
+    dim = spec["dim"]
+    far = np.array([ref.origin[c] + s * ref.dimensions[m] for c, (m, s) in enumerate(AXES[dim])])
+    tolb = np.array([8 * EPS * (abs(ref.origin[c]) + ref.dimensions[m]) for c, (m, s) in enumerate(AXES[dim])])
+    lo, hi = np.minimum(ref.origin, far), np.maximum(ref.origin, far)
+    got_lo, got_hi = np.asarray(cs.min_coordinate, float), np.asarray(cs.max_coordinate, float)
+    if got_lo.shape != (dim,) or got_hi.shape != (dim,) or np.any(np.abs(got_lo - lo) > tolb) \
+            or np.any(np.abs(got_hi - hi) > tolb):
+        raise Violation("bounding-box", f"min/max_coordinate {got_lo.tolist()} / {got_hi.tolist()}, box of "
+                        f"origin and origin +- dimensions is {lo.tolist()} / {hi.tolist()}", t)
+    if sorted(cs.domain) != sorted(a + e for a in "xyz"[:dim] for e in ("min", "max")):
+        raise Violation("bounding-box", f"domain has the entries {sorted(cs.domain)}", t)
+    for c, a in enumerate("xyz"[:dim]):
+        if abs(float(cs.domain[a + "min"]) - lo[c]) > tolb[c] or abs(float(cs.domain[a + "max"]) - hi[c]) > tolb[c]:
+            raise Violation("bounding-box", f"domain[{a}min/{a}max] = {cs.domain[a + 'min']!r} / "
+                            f"{cs.domain[a + 'max']!r}, expected {lo[c]!r} / {hi[c]!r}", t)
+        # the side of the box that is the origin is the origin itself
+        side = "min" if AXES[dim][c][1] > 0 else "max"
+        if float(cs.domain[a + side]) != ref.origin[c]:
+            raise Violation("bounding-box", f"domain[{a}{side}] = {cs.domain[a + side]!r} is not the origin "
+                            f"entry {ref.origin[c]!r}", t)
+    if dim <= 2:
+        ext = [float(e) for e in img.domain]
+        want_ext = [ref.origin[0], far[0]] if dim == 1 else [ref.origin[0], far[0], far[1], ref.origin[1]]
+        tol_ext = [tolb[0], tolb[0]] if dim == 1 else [tolb[0], tolb[0], tolb[1], tolb[1]]
+        if len(ext) != len(want_ext) or any(abs(g - w) > tl for g, w, tl in zip(ext, want_ext, tol_ext)):
+            raise Violation("image-domain", f"Image.domain = {ext}, extent from origin to opposite corner "
+                            f"is {want_ext}", t)
+    # reading all of this leaves the geometry of the image as constructed
+    _unchanged(ref.origin, np.asarray(img.origin, float), "image.origin", t)
+    _unchanged(np.asarray(spec["dimensions"], float), np.asarray(img.dimensions, float), "image.dimensions", t)
+    return Outcome(_nontrivial(spec), _key(spec), _labels(spec), evals=4)
 
 
 # ---- 2. unit steps ---------------------------------------------------------------------
@@ -132,7 +182,9 @@ def check_matches_reference(case):
     spec, img, ref = _setup(case)
     cs = img.coordinatesystem
     pts = _halo(spec, 600, case["tseed"])
+    pts0 = pts.copy()
     got = np.asarray(cs.coordinate(pts), dtype=float)
+    _unchanged(pts0, pts, "the voxel batch handed to coordinate()", _tags(spec))
     want = ref.coordinate(pts)
     bad = np.abs(got - want) > 8 * EPS * _scale(ref, pts)
     if bad.any():
@@ -170,7 +222,9 @@ def check_interior_roundtrip(case):
     cs = img.coordinatesystem
     pts = _halo(spec, 600, case["tseed"])
     x, ok, t = _interior_points(spec, ref, pts, case["tseed"], stress=True)
+    x0 = x.copy()
     got = np.asarray(cs.voxel(x))
+    _unchanged(x0, x, "the coordinate batch handed to voxel()", _tags(spec))
     if got.dtype.kind not in "iu":
         raise Violation("voxel-dtype", f"voxel() returned dtype {got.dtype}", _tags(spec))
     bad = np.any(got != pts, axis=1) & ok
@@ -201,6 +255,7 @@ def check_batch_single(case):
     t = _tags(spec)
     pts = _halo(spec, 40, case["tseed"])
     x, ok, _ = _interior_points(spec, ref, pts, case["tseed"], stress=False)
+    pts0, x0 = pts.copy(), x.copy()
     batch_c = cs.coordinate(pts)
     if not isinstance(batch_c, darsia.CoordinateArray):
         raise Violation("type", f"coordinate(2-D array) returned {type(batch_c).__name__}", t)
@@ -271,6 +326,8 @@ def check_batch_single(case):
         if not np.array_equal(np.asarray(sv), batch_v[i]):
             raise Violation("batch-vs-single", f"voxel({x[i].tolist()}) single "
                             f"{np.asarray(sv).tolist()} vs batch row {batch_v[i].tolist()}", t)
+    _unchanged(pts0, pts, "a voxel array handed to coordinate() in some call form", t)
+    _unchanged(x0, x, "a coordinate array handed to voxel() in some call form", t)
     return Outcome(_nontrivial(spec), _key(spec), _labels(spec), evals=len(pts))
 
 
@@ -515,14 +572,353 @@ def check_typed_selection(case):
     return Outcome(_nontrivial(spec), _key(spec), _labels(spec), evals=9)
 
 
+# ---- 10. displacement vectors ----------------------------------------------------------------
+
+
+def check_displacement_vectors(case):
+    """coordinate_vector converts a displacement given in voxels (one vector per row, or one vector)
+    into the physical displacement: matrix axis m contributes (orientation sign) * component * voxel
+    size to its Cartesian axis and nothing else; the origin does not enter; and the displacement
+    between two voxels is the converted difference of their indices."""
+    spec, img, ref = _setup(case)
+    cs = img.coordinatesystem
+    dim = spec["dim"]
+    t = _tags(spec)
+    rng = np.random.default_rng(case["tseed"])
+    n = 24
+    kinds = {
+        "unit": np.eye(dim, dtype=int)[rng.integers(0, dim, size=n)] * rng.choice([-1, 1], size=(n, 1)),
+        "integer": rng.integers(-50, 51, size=(n, dim)),
+        "fractional": rng.integers(-400, 401, size=(n, dim)) / 8.0,
+        "float-integer": rng.integers(-50, 51, size=(n, dim)).astype(float),
+    }
+    for name, d in kinds.items():
+        d0 = d.copy()
+        got = cs.coordinate_vector(d)
+        _unchanged(d0, d, f"the {name} vector batch handed to coordinate_vector()", t)
+        got = np.asarray(got)
+        if got.shape != d.shape or got.dtype.kind != "f":
+            raise Violation("vector-shape", f"coordinate_vector({name} batch {d.shape}, {d.dtype}) returned "
+                            f"shape {got.shape}, dtype {got.dtype}", t)
+        want = np.empty((n, dim))
+        for c, (m, sgn) in enumerate(AXES[dim]):
+            want[:, c] = sgn * d[:, m] * ref.h[m]
+        bad = np.abs(got - want) > 2 * EPS * np.abs(want)
+        if bad.any():
+            i, c = (int(k) for k in np.argwhere(bad)[0])
+            raise Violation("vector-value", f"{name} vector {d[i].tolist()} -> {got[i].tolist()}, expected "
+                            f"{want[i].tolist()} (Cartesian axis {c})", t)
+        # a batch of one vector stays a batch, a single vector is the row of the batch
+        one = np.asarray(cs.coordinate_vector(d[:1]))
+        if one.shape != (1, dim) or not np.array_equal(one, got[:1]):
+            raise Violation("vector-shape", f"coordinate_vector({name} batch of one row) returned shape "
+                            f"{one.shape} / other values than the first row of the batch", t)
+        for i in range(0, n, 5):
+            single = np.asarray(cs.coordinate_vector(d[i]))
+            if single.shape != (dim,) or not np.array_equal(single, got[i]):
+                raise Violation("vector-single", f"coordinate_vector(single {d[i].tolist()}) = "
+                                f"{single.tolist()}, row of the batch {got[i].tolist()}", t)
+    # displacement between two voxels = converted index difference (to the rounding of coordinate())
+    pts = _halo(spec, n, case["tseed"])
+    d = kinds["integer"][: len(pts)]
+    diff = np.asarray(cs.coordinate(pts + d), float) - np.asarray(cs.coordinate(pts), float)
+    vec = np.asarray(cs.coordinate_vector(d))
+    tol = 8 * EPS * (_scale(ref, pts) + _scale(ref, pts + d))
+    if np.any(np.abs(diff - vec) > tol):
+        i = int(np.argwhere(np.any(np.abs(diff - vec) > tol, axis=1))[0][0])
+        raise Violation("vector-vs-points", f"coordinate({(pts + d)[i].tolist()}) - coordinate({pts[i].tolist()}) "
+                        f"= {diff[i].tolist()}, coordinate_vector({d[i].tolist()}) = {vec[i].tolist()}", t)
+    return Outcome(_nontrivial(spec), _key(spec), _labels(spec), evals=4 * n + len(pts))
+
+
+# ---- 11. lengths <-> voxel counts along a Cartesian axis ----------------------------------------
+
+
+def check_length_count(case):
+    """length(k, axis) is k voxel sizes of the matrix axis paired with that Cartesian axis;
+    num_voxels(L, axis) counts all voxels touched by a length L ("include all touched voxels"):
+    a length strictly between k-1 and k voxel sizes touches k voxels."""
+    spec, img, ref = _setup(case)
+    cs = img.coordinatesystem
+    dim = spec["dim"]
+    t = _tags(spec)
+    rng = np.random.default_rng(case["tseed"])
+    n = 32
+    for c, (m, sgn) in enumerate(AXES[dim]):
+        axis = "xyz"[c]
+        h = ref.h[m]
+        k = rng.integers(0, 200, size=n)
+        got = np.asarray(cs.length(k, axis), float)
+        if got.shape != (n,) or np.any(np.abs(got - k * h) > 2 * EPS * k * h):
+            raise Violation("length", f"length(counts, {axis!r}) differs from counts * voxel size {h!r} of "
+                            f"matrix axis {m}", t)
+        if abs(float(cs.length(int(k[0]), axis)) - k[0] * h) > 2 * EPS * k[0] * h:
+            raise Violation("length", f"length({int(k[0])}, {axis!r}) = {cs.length(int(k[0]), axis)!r}, voxel "
+                            f"size {h!r}", t)
+        k = rng.integers(1, 200, size=n)
+        kind = rng.integers(0, 3, size=n)
+        frac = np.where(kind == 0, 0.5, np.where(kind == 1, 1e-6, 1 - 1e-6))
+        frac = np.where(rng.integers(0, 2, size=n) == 0, frac, 1e-6 + rng.random(n) * (1 - 2e-6))
+        L = (k - frac) * h
+        L0 = L.copy()
+        cnt = np.asarray(cs.num_voxels(L, axis))
+        _unchanged(L0, L, "the length array handed to num_voxels()", t)
+        if cnt.shape != (n,) or cnt.dtype.kind not in "iu":
+            raise Violation("count-dtype", f"num_voxels(array, {axis!r}) returned shape {cnt.shape}, dtype "
+                            f"{cnt.dtype}", t)
+        if np.any(cnt != k):
+            i = int(np.argmax(cnt != k))
+            raise Violation("count", f"a length of {k[i] - frac[i]!r} voxel sizes along {axis} ({L[i]!r}) touches "
+                            f"{int(k[i])} voxels, num_voxels = {int(cnt[i])}", t)
+        one = cs.num_voxels(float(L[0]), axis)
+        if np.ndim(one) != 0 or int(one) != int(k[0]) or np.asarray(one).dtype.kind not in "iu":
+            raise Violation("count", f"num_voxels(scalar {L[0]!r}, {axis!r}) = {one!r}, expected {int(k[0])}", t)
+    return Outcome(_nontrivial(spec), _key(spec), _labels(spec), evals=2 * n * dim)
+
+
+# ---- 12. the whole typed conversion table -------------------------------------------------------
+
+_SINGLE = ("Coordinate", "Voxel", "VoxelCenter")
+
+
+def check_conversion_table(case):
+    """point.to(cls, cs) for every source type (coordinate / voxel / voxel centre, single and array)
+    and every target class (single or array class name): the result has the target kind, is single
+    for a single source and an array for an array source, and holds the reference value.  The point
+    constructors applied to a position strictly inside a voxel (in voxel units) give that voxel / its
+    centre, and positions given in (column, row) order with matrix_indexing=False are the same 2-D
+    points as in (row, column) order."""
+    spec, img, ref = _setup(case)
+    cs = img.coordinatesystem
+    dim = spec["dim"]
+    pts = _halo(spec, 24, case["tseed"])
+    x, ok, tt = _interior_points(spec, ref, pts, case["tseed"], stress=False)
+    if not ok.all():
+        pts, x, tt = pts[ok], x[ok], tt[ok]
+    if len(pts) == 0:
+        return Outcome(False, _key(spec), _labels(spec), status="skipped")
+    tg = _tags(spec)
+    tg["negative"] = bool(np.any(pts < 0))
+    rng = np.random.default_rng(case["tseed"])
+    cls = {n: getattr(darsia, n) for n in _SINGLE}
+    acls = {n: getattr(darsia, n + "Array") for n in _SINGLE}
+    value = {"Coordinate": None, "Voxel": pts, "VoxelCenter": pts + 0.5}
+    tolc = 8 * EPS * _scale(ref, pts)
+    sources = {"Coordinate": acls["Coordinate"](x), "Voxel": acls["Voxel"](pts),
+               "VoxelCenter": acls["Voxel"](pts).to_voxel_center()}
+
+    def compare(src, dst, got, rows, how):
+        g = np.asarray(got)
+        if dst == "Coordinate":
+            want = x[rows] if src == "Coordinate" else ref.coordinate(value[src][rows])
+            bad = g.shape != want.shape or (np.any(g != want) if src == "Coordinate"
+                                            else np.any(np.abs(g - want) > tolc[rows]))
+        else:
+            want = value[dst][rows]
+            bad = g.shape != want.shape or np.any(g != want)
+        if bad:
+            raise Violation(f"table-value:{src}->{dst}", f"{how}: {g.tolist()[:3]}, expected "
+                            f"{np.asarray(want).tolist()[:3]}", tg)
+
+    rows_all = np.arange(len(pts))
+    i = int(rng.integers(0, len(pts)))
+    for src, arr in sources.items():
+        a0 = np.asarray(arr).copy()
+        for dst in _SINGLE:
+            needs_cs = (src == "Coordinate") != (dst == "Coordinate")
+            for target in (cls[dst], acls[dst]):
+                for with_cs in ((True,) if needs_cs else (True, False)):
+                    args = (target, cs) if with_cs else (target,)
+                    how = f"{src}Array.to({target.__name__}{', cs' if with_cs else ''})"
+                    got = arr.to(*args)
+                    if type(got) is not acls[dst]:
+                        raise Violation(f"table-type:{src}->{dst}", f"{how} is a {type(got).__name__}", tg)
+                    compare(src, dst, got, rows_all, how)
+                    one = arr[i]
+                    if type(one) is not cls[src]:
+                        raise Violation(f"table-type:{src}->{src}", f"{src}Array[int] is a {type(one).__name__}", tg)
+                    how = f"{src}.to({target.__name__}{', cs' if with_cs else ''})"
+                    got = one.to(*args)
+                    if type(got) is not cls[dst]:
+                        raise Violation(f"table-type:{src}->{dst}", f"{how} is a {type(got).__name__}", tg)
+                    compare(src, dst, got, i, how)
+        _unchanged(a0, np.asarray(arr), f"the {src}Array that was converted", tg)
+    # constructors on positions strictly inside a voxel, in voxel units
+    pos = pts + tt
+    made = {
+        "Voxel": (darsia.Voxel(pos[i]), darsia.make_voxel(pos[i]), darsia.make_voxel(pos[i].tolist())),
+        "VoxelCenter": (darsia.VoxelCenter(pos[i]), darsia.make_voxel_center(pos[i]),
+                        darsia.make_voxel_center(pos[i].tolist())),
+    }
+    made_arr = {
+        "Voxel": (darsia.VoxelArray(pos), darsia.make_voxel(pos), darsia.make_voxel(pos.tolist())),
+        "VoxelCenter": (darsia.VoxelCenterArray(pos), darsia.make_voxel_center(pos),
+                        darsia.make_voxel_center(pos.tolist())),
+    }
+    for dst in ("Voxel", "VoxelCenter"):
+        for got in made[dst]:
+            if type(got) is not cls[dst] or np.asarray(got).shape != (dim,) or np.any(np.asarray(got) != value[dst][i]):
+                raise Violation(f"constructor:{dst}", f"{dst} from the position {pos[i].tolist()} is a "
+                                f"{type(got).__name__} {np.asarray(got).tolist()}, expected "
+                                f"{value[dst][i].tolist()}", tg)
+        for got in made_arr[dst]:
+            if type(got) is not acls[dst] or np.asarray(got).shape != pos.shape or np.any(np.asarray(got) != value[dst]):
+                raise Violation(f"constructor:{dst}", f"{dst}Array from positions inside voxels is a "
+                                f"{type(got).__name__} with other values than the voxels"
+                                f"{' + 1/2' if dst == 'VoxelCenter' else ''}", tg)
+        if dst == "Voxel" and (np.asarray(made[dst][0]).dtype.kind not in "iu"
+                               or np.asarray(made_arr[dst][0]).dtype.kind not in "iu"):
+            raise Violation("constructor:Voxel", "Voxel / VoxelArray do not hold integers", tg)
+    if dim == 2:
+        # (column, row) order, as delivered by image-processing back ends
+        flipped = {
+            "Voxel": (darsia.Voxel(pos[i][::-1], matrix_indexing=False), darsia.make_voxel(pos[i][::-1], matrix_indexing=False)),
+            "VoxelCenter": (darsia.VoxelCenter(pos[i][::-1], matrix_indexing=False),
+                            darsia.make_voxel_center(pos[i][::-1], matrix_indexing=False)),
+        }
+        flipped_arr = {
+            "Voxel": (darsia.VoxelArray(pos[:, ::-1], matrix_indexing=False), darsia.make_voxel(pos[:, ::-1], matrix_indexing=False)),
+            "VoxelCenter": (darsia.VoxelCenterArray(pos[:, ::-1], matrix_indexing=False),
+                            darsia.make_voxel_center(pos[:, ::-1], matrix_indexing=False)),
+        }
+        for dst in ("Voxel", "VoxelCenter"):
+            for got in flipped[dst]:
+                if type(got) is not cls[dst] or np.asarray(got).shape != (dim,) or np.any(np.asarray(got) != value[dst][i]):
+                    raise Violation(f"column-row-order:{dst}", f"{dst} of the (column, row) position "
+                                    f"{pos[i][::-1].tolist()} with matrix_indexing=False is "
+                                    f"{type(got).__name__} {np.asarray(got).tolist()}, expected (row, column) "
+                                    f"{value[dst][i].tolist()}", tg)
+            for got in flipped_arr[dst]:
+                if type(got) is not acls[dst] or np.asarray(got).shape != pos.shape or np.any(np.asarray(got) != value[dst]):
+                    raise Violation(f"column-row-order:{dst}", f"{dst}Array of (column, row) positions with "
+                                    f"matrix_indexing=False is a {type(got).__name__} / not the (row, column) "
+                                    f"points", tg)
+    return Outcome(_nontrivial(spec), _key(spec), _labels(spec) + (("halo-negative",) if tg["negative"] else ()),
+                   evals=36 * 2 + 12)
+
+
+# ---- 13. other ways of stating the same geometry -------------------------------------------------
+
+_FORMS = ("height-width-depth", "height-width-depth-over-dimensions", "height-only", "integer-typed",
+          "tuple", "ndarray", "coordinate-origin", "dimensions-omitted")
+
+
+def gen_forms(tier):
+    return st.fixed_dictionaries({
+        "img": gens.image_specs(
+            dims=(1, 2, 3), max_extent={1: 40, 2: 9, 3: 5},
+            dtypes=("float64", "uint8"), max_nt=3, max_comp=3),
+        "tseed": st.integers(0, 2**16),
+        "form": st.sampled_from(_FORMS),
+    })
+
+
+def check_geometry_forms(case):
+    """The same geometry stated through another documented form of the constructor arguments
+    (height / width / depth keywords - also over-writing entries of `dimensions` -, integer-typed
+    numbers, tuples, arrays, a typed Coordinate as origin, dimensions left at the default unit
+    extent) gives the same maps as the reference for that geometry."""
+    spec = dict(case["img"])
+    form = case["form"]
+    dim = spec["dim"]
+    if form.startswith("height") and dim == 1:
+        form = "tuple"  # the keywords address the axes of 2-D and 3-D images
+    kw = gens.image_kwargs(spec)
+    dims = [float(d) for d in spec["dimensions"]]
+    origin = None if spec["origin"] is None else [float(o) for o in spec["origin"]]
+    names = ("height", "width", "depth")[:dim]
+    if form == "height-width-depth":
+        kw.pop("dimensions")
+        kw.update(dict(zip(names, dims)))
+    elif form == "height-width-depth-over-dimensions":
+        kw["dimensions"] = [2.0 * d + 1.0 for d in dims]
+        kw.update(dict(zip(names, dims)))
+    elif form == "height-only":
+        kw["dimensions"] = [3.0 * dims[0] + 1.0] + dims[1:]
+        kw["height"] = dims[0]
+    elif form == "integer-typed":
+        dims = [float(max(1, min(10**6, round(d)))) for d in dims]
+        kw["dimensions"] = [int(d) for d in dims]
+        if origin is not None:
+            origin = [float(round(o)) for o in origin]
+            kw["origin"] = [int(o) for o in origin]
+    elif form == "tuple":
+        kw["dimensions"] = tuple(dims)
+        if origin is not None:
+            kw["origin"] = tuple(origin)
+    elif form == "ndarray":
+        kw["dimensions"] = np.array(dims)
+        if origin is not None:
+            kw["origin"] = np.array(origin)
+    elif form == "coordinate-origin":
+        if origin is not None:
+            kw["origin"] = darsia.Coordinate(np.array(origin))
+        else:
+            form = "plain-lists"
+    elif form == "dimensions-omitted":
+        kw.pop("dimensions")
+        dims = [1.0] * dim
+    arr = gens.payload_array(gens.full_shape(spec), spec["dtype"], spec["pseed"], True)
+    given = {k: (type(kw[k]), np.array(kw[k])) for k in ("dimensions", "origin") if k in kw}
+    img = darsia.Image(arr, **kw)
+    ref = RefCS(dim, spec["shape"], dims, origin)
+    spec["dimensions"], spec["origin"] = dims, origin
+    t = _tags(spec)
+    t["form"] = form
+    for k, (tp, val) in given.items():
+        if type(kw[k]) is not tp:
+            raise Violation("argument-mutated", f"the {k} argument changed its type", t)
+        _unchanged(val, np.array(kw[k]), f"the {k} argument of the constructor ({form})", t)
+    if [float(d) for d in img.dimensions] != dims:
+        raise Violation(f"form-dimensions:{form}", f"image.dimensions = {list(img.dimensions)}, stated {dims}", t)
+    cs = img.coordinatesystem
+    o = np.asarray(cs.coordinate([0] * dim), float)
+    if not np.array_equal(o, ref.origin) or not np.array_equal(np.asarray(img.origin, float), ref.origin):
+        raise Violation(f"form-origin:{form}", f"coordinate(0) = {o.tolist()}, image.origin = "
+                        f"{np.asarray(img.origin).tolist()}, expected {ref.origin.tolist()}", t)
+    pts = _halo(spec, 60, case["tseed"])
+    got = np.asarray(cs.coordinate(pts), float)
+    if np.any(np.abs(got - ref.coordinate(pts)) > 8 * EPS * _scale(ref, pts)):
+        raise Violation(f"form-coordinate:{form}", "coordinate() differs from the reference map of the stated "
+                        "geometry", t)
+    opp = np.asarray(img.opposite_corner, float)
+    for c, (m, s) in enumerate(AXES[dim]):
+        if abs((opp[c] - ref.origin[c]) - s * dims[m]) > 8 * EPS * (abs(ref.origin[c]) + dims[m]):
+            raise Violation(f"form-opposite:{form}", f"axis {c}: opposite - origin = {opp[c] - ref.origin[c]!r}, "
+                            f"dimension {s * dims[m]!r}", t)
+    x, ok, _t = _interior_points(spec, ref, pts, case["tseed"], stress=False)
+    gv = np.asarray(cs.voxel(x))
+    if np.any(np.any(gv != pts, axis=1) & ok):
+        i = int(np.argmax(np.any(gv != pts, axis=1) & ok))
+        raise Violation(f"form-voxel:{form}", f"point {x[i].tolist()} inside voxel {pts[i].tolist()} -> "
+                        f"{gv[i].tolist()}", t)
+    if ok.any():
+        back = darsia.VoxelArray(pts[ok]).to_voxel_center().to_coordinate(cs).to_voxel(cs)
+        if np.any(np.asarray(back) != pts[ok]):
+            raise Violation(f"form-voxel:{form}", "voxel -> centre -> coordinate -> voxel is not the identity", t)
+    # in place: the image can be put back to the default origin of its (stated) dimensions
+    img.reset_origin()
+    r0 = RefCS(dim, spec["shape"], dims, None)
+    got = np.asarray(img.coordinatesystem.coordinate(pts), float)
+    if np.any(np.abs(got - r0.coordinate(pts)) > 8 * EPS * _scale(r0, pts)):
+        raise Violation(f"form-reset:{form}", "after reset_origin() coordinate() differs from the reference "
+                        "map with the default origin", t)
+    return Outcome(True, _key(spec, [form]), _labels(spec) + (f"form-{form}",), evals=len(pts))
+
+
 _RULE = ("Hypothesis draws the image geometry (space_dim 1-3, extents incl. single-voxel axes, "
          "power-of-two / generic / unit voxel sizes in 1e-4..1e4, default or user origin up to 1e6 "
          "voxel sizes away, scalar / vector / series payload); every voxel plus a halo of width 3 "
          "is evaluated (sub-sampled above the cap); non-trivial = dim>=2 or user origin or a "
-         "single-voxel axis; distinct = (dim, shape, dimensions, origin, payload kind)")
+         "single-voxel axis; distinct = (dim, shape, dimensions, origin, payload kind); displacement "
+         "vectors (unit / integer / fractional, single and batch), lengths and voxel counts per Cartesian "
+         "axis, the full point.to(cls) table (3 source kinds x single/array x 6 target classes, with and "
+         "without coordinate system), point constructors on positions inside voxels incl. (column, row) "
+         "order in 2-D, and 8 alternative forms of stating the geometry to the constructor")
 
 _N = {"quick": 640, "thorough": 16000}
 _SH = {"quick": 3, "thorough": 16}
+_SH2 = {"quick": 2, "thorough": 16}
 
 PROP = Prop(
     pid="C01",
@@ -531,6 +927,11 @@ PROP = Prop(
         "reference map RefCS spelled from the documented convention (x<->j, y<->i reversed in 2-D; "
         "x<->j, y<->k reversed, z<->i reversed in 3-D, as used by the default origin)",
         "points on voxel faces are not asserted; interior margin max(1e-6, 64 eps (|x|+|o|)/h)",
+        "Image.domain is the plotting extent (left, right, bottom, top) its callers hand to imshow; 3-D is "
+        "documented as not implemented and not called",
+        "matrix_indexing=False is asserted in 2-D only ((column, row) order of image-processing back ends, "
+        "the one caller); height / width / depth keywords in 2-D and 3-D only, as documented",
+        "num_voxels is asserted only for lengths at least 1e-6 voxel sizes away from a whole number of voxels",
     ],
     subs=[
         Sub("origin_corner", check_origin_corner, gen=gen, n=_N, shards=_SH),
@@ -542,5 +943,9 @@ PROP = Prop(
         Sub("integer_typed_points", check_integer_points, gen=gen, n=_N, shards=_SH),
         Sub("follows_current_metadata", check_metadata_update, gen=gen, n=_N, shards=_SH),
         Sub("typed_array_selection", check_typed_selection, gen=gen, n={"quick": 320, "thorough": 8000}, shards=_SH),
+        Sub("displacement_vectors", check_displacement_vectors, gen=gen, n={"quick": 320, "thorough": 8000}, shards=_SH2),
+        Sub("length_voxel_count", check_length_count, gen=gen, n={"quick": 240, "thorough": 8000}, shards=_SH2),
+        Sub("conversion_table", check_conversion_table, gen=gen, n={"quick": 320, "thorough": 8000}, shards=_SH2),
+        Sub("geometry_call_forms", check_geometry_forms, gen=gen_forms, n={"quick": 480, "thorough": 16000}, shards=_SH2),
     ],
 )
